@@ -124,6 +124,8 @@ pub struct State {
     pub packages: HashMap<PackageId, u32>,
     /// A map of instantiation nodes to a list of their encoded implicitly imported arguments.
     pub implicit_args: HashMap<NodeIndex, Vec<(String, ComponentExportKind, u32)>>,
+    /// The interfaces whose aliasable instance was imported under a name other than the interface id.
+    pub renamed_instances: std::collections::HashSet<String>,
 }
 
 impl State {
